@@ -111,6 +111,40 @@ def r08_3(chk, P, E):
     return n
 
 
+def r08_14(chk, P, rule='R08.14'):
+    chk.rule(rule, 'a seek reports success only after it has repositioned: in each plain seek entry point (ov_raw_seek, '
+             'ov_pcm_seek_page, ov_pcm_seek, ov_time_seek_page, ov_time_seek) every return whose value may be 0 lies on paths that '
+             'all pass a call from which the seek helper (the one caller of the seek callback) is reachable.  A short cut that '
+             'answers 0 because the handle "is already there" trusts a position that a failed or mapped-to-end seek may have left '
+             'without the decoder standing on it')
+    sh = P.need('_seek_helper')
+    shk = P.key(sh)
+    reach = {}
+
+    def moves(A, env, e):
+        nd = A.ex[e]
+        if nd['k'] != 'call':
+            return False
+        for t in P.call_targets(A.F, e):
+            if t not in reach:
+                reach[t] = t == shk or (t in P.fn and shk in P.reachable([t]))
+            if reach[t]:
+                return True
+        return False
+    n = 0
+    for fn in ('ov_raw_seek', 'ov_pcm_seek_page', 'ov_pcm_seek', 'ov_time_seek_page', 'ov_time_seek'):
+        F = P.need(fn)
+        A, h = k2.analyse(P, F, [('moved', moves, True)])
+        rets = [(e, fl, v) for (e, fl, v, env) in k2.ret_value_classes(A) if v is None or (v.lo <= 0 <= v.hi)]
+        chk.require(rets, f'{fn} has no return that may be 0')
+        bad = [(e, fl, v) for (e, fl, v) in rets if 'moved' not in fl]
+        chk.ob(rule, fn, 'success-only-after-repositioning', not bad, F.where(bad[0][0]) if bad else F.where(rets[0][0]),
+               f'{len(rets)} (return, history) pairs that may answer 0, all after a repositioning call' if not bad else
+               f'`{F.s(bad[0][0])}` can answer 0 on a path that never reached the seek helper: the position is taken on trust')
+        n += 1
+    return n
+
+
 def r08_5(chk, P, E):
     chk.rule('R08.5', 'in ov_raw_seek, ov_pcm_seek_page, ov_pcm_seek and the lap helpers that wrap them (file-local functions that call a seek through a function-pointer parameter) no store to the handle and no call writing it happens '
              'before the position argument has been range-checked on that path (compared against a lower and an upper '
@@ -463,6 +497,8 @@ def run(chk, P):
     chk.floor('R08.3', 3)
     r08_5(chk, P, E)
     chk.floor('R08.5', 2)
+    r08_14(chk, P)
+    chk.floor('R08.14', 5)
     r08_8(chk, P)
     chk.floor('R08.8', 1)
     r08_9(chk, P)
